@@ -258,7 +258,7 @@ func (c *trCtx) rangeStmt(x *ast.RangeStmt, k trK) trLines {
 	}
 	xs := c.expr(x.X)
 	pre := c.takePre()
-	state := c.assignedIn(x.Body)
+	state := c.notLoopVars(x, c.assignedIn(x.Body)) // (trans_units_beancount.go)
 	tuple, ttyp := c.tupleOf(state)
 	keyName, valName := "", ""
 	if id, ok := x.Key.(*ast.Ident); ok && id.Name != "_" {
@@ -367,7 +367,7 @@ func (c *trCtx) rangeRec(x *ast.RangeStmt, elemTy types.Type, m *types.Map, k tr
 	}
 	xs := c.expr(x.X)
 	pre := c.takePre()
-	state := c.assignedIn(x.Body)
+	state := c.notLoopVars(x, c.assignedIn(x.Body)) // (trans_units_beancount.go)
 	if m != nil {
 		// the ranged map must be a variable or field path; entries may only be deleted
 		ast.Inspect(x.Body, func(n ast.Node) bool {
